@@ -91,3 +91,18 @@ CHECKS['C11'] = dict(
           'every schedule within 2 (thorough 3) deviations from the default scheduler. Oracles per execution: Go race detector reports (hand-offs hidden with RaceDisable, program happens-before declared on tokens), exact deadlock '
           '(no enabled thread), panic, every call returns, election linearizable, quiescent RIB = acknowledged operations.'),
     note='Participants and bound are fixed (3-4 threads, <=3 deviations); sessions are driven at the handler API (the per-stream goroutine plumbing is C06/C10); weak-memory effects without a detectable race are out of scope. The race oracle is self-tested by cmd/rtlitmus.')
+ENGINES.append({'name': 'stream-history-bfs', 'path': 'harness/streams + wire/ + rt/', 'serves_properties': ['C09', 'C10'],
+     'kind_free_text': 'explicit-state BFS over message / fault histories on REAL Modify and Get streams: the handler goroutines run as threads of the controlled runtime behind the in-memory transport, each step is run to quiescence under the default schedule, whole histories are re-executed on a fresh server'})
+CHECKS['C09'] = dict(
+    category='model_checking', engine='stream-history-bfs', design_ref='DESIGN.md §3 C09',
+    technique='explicit-state BFS over message sequences on 2-3 real Modify streams (server handler + receive loop + result pump under the controlled runtime), session/election reference model with status-code sets from the specification',
+    text=('Every sequence to depth 6 (thorough 7, 3 sessions) of open / parameters (5, thorough all 8 mode combinations) / election id (zero, low, high) / operation (stamped, unstamped, batch [violating, valid]) / the three two-field messages / half-close '
+          'on real Modify RPCs of the real server, from the empty server and from an established primary. For each message the model yields OK or the set of status codes and ModifyRPCErrorDetails reasons that specification §4.1 and the compliance suite allow; '
+          'a terminating violation must not send a response first, must leave RIB, held operations, election state and every other session and stream untouched, and must remove the failed session from the session table.'),
+    note='Each message is run to quiescence under the default schedule (interleavings inside a message are C11); where the statement is silent (a live session that has not negotiated yet) both answers are accepted.')
+CHECKS['C10'] = dict(
+    category='fault_enumeration', engine='stream-history-bfs', design_ref='DESIGN.md §3 C10',
+    technique='explicit-state BFS over fault histories (half-close / cancel / transport failure at every message boundary and mid-request; Get abandoned after k responses) on real streams; liveness probe decided by the scheduler\'s exact deadlock verdict',
+    text=('Every history to depth 6 (thorough 7, 2 sessions) of session steps, the three disconnect modes, requests cut immediately after they were sent, and Gets abandoned after 0..2 (3) responses in two modes, from the empty server and from a server holding a chain of entries. '
+          'After every fault: installed entries and election id identical, the session removed, and a fresh session must negotiate, win the election, program an entry, Get it and Flush — run as a thread; "blocked forever" is the scheduler\'s verdict, not a timeout.'),
+    note='Stream contract of wire/ (DESIGN §2.4), not HTTP/2; faults inside a request are explored under the default schedule only. distinct_nontrivial counts histories containing at least one fault letter.')
